@@ -5,6 +5,7 @@ encoder/decoder keys and class names are regenerated from /repo (Gen/C11).
 -/
 import CfVerif.Base.Struct
 import CfVerif.Proofs.C11Cache
+import CfVerif.Proofs.C11Hist
 namespace CfVerif.C11
 open CfVerif
 
@@ -215,6 +216,25 @@ theorem hit_uses_cache (w : World) (nbr crc : Nat) (hs : w.f.state = .getInfo) (
       .ok ({ w with f := { w.f with nbr := nbr, crc := crc, toc := .loaded v, state := .done } }, [.finished]) :=
   fetcher_info_hit w nbr crc hs v hf ht
 
+/-! ## All clauses together, over histories -/
+
+/-- **Never a wrong table.**  Start from an empty writable cache directory `d`.  After ANY sequence of completed
+`insert`s, `insert`s cut short at any byte (crash / write error) and restarts (a new `TocCache` in a new process), for every
+32-bit checksum `fetch` returns `None` or exactly the table LAST written under that checksum - never a partial table, never a
+table written under another checksum, never an older table, never an exception.  (Tables are dicts of dicts of elements with
+valid strings: `Op.Ok`.) -/
+theorem never_wrong_table (d : Path) (ops : List Op) (hok : ∀ op ∈ ops, op.Ok) (crc : Nat) (hc : crc < 4294967296) :
+    let s := applyOps d (⟨[], [d], false⟩, ⟨[], some d⟩) ops
+    s.2.fetch s.1 crc = .ok .null ∨
+      ∃ t, lastWritten (fun _ => none) ops crc = some t ∧ s.2.fetch s.1 crc = .ok (tocVal t) := by
+  intro s
+  have h0 : Inv d (fun _ => none) (⟨[], [d], false⟩, ⟨[], some d⟩) := by
+    refine ⟨by simp [FS.canWrite], rfl, ?_, ?_, ?_⟩
+    · intro p hp; cases hp
+    · intro crc' _ bs hr; cases hr
+    · intro p hp; cases hp
+  exact inv_fetch d _ s (inv_ops d _ _ ops hok h0) crc hc
+
 /-! ## Clause 4: the read-only cache directory is never written -/
 
 /-- `insert` (complete or cut short) changes no file directly inside a directory other than the rw directory;
@@ -289,6 +309,8 @@ example : loads (ofString "{\"a\": [1, tr") = .error .exc := by rfl
 set_option maxRecDepth 16384 in
 example : loads (ofString "{\"g\": {\"n\": {\"__class__\": \"LogTocElement\", \"ident\": 3, \"group\": \"g\", \"name\": \"n\", \"ctype\": \"c\", \"pytype\": \"p\", \"access\": 0}}}")
     = .ok (tocVal [([103], [([110], .log ⟨3, [103], [110], [99], [112], 0⟩)])]) := by rfl
+example : (Op.insertCut 7 cxLogToc 12).Ok := ⟨by decide, cxLogToc_ok.1, cxLogToc_ok.2.1⟩
+example : lastWritten (fun _ => none) [.insert 7 [], .restart, .insertCut 7 cxLogToc 12, .insert 8 []] 7 = some cxLogToc := rfl
 example : truthy .null = .ok false ∧ truthy (.obj []) = .ok false := ⟨rfl, rfl⟩
 example : TocWF (addAll [] [.log ⟨0, [103], [110], [99], [112], 0⟩, .param ⟨1, [103], [110], [99], [112], 1⟩ true]) :=
   downloaded_table_is_dict _
